@@ -440,7 +440,7 @@ def sha(x):
 class Check:
     """Collects what one run of one property check did and decides the exit code."""
 
-    def __init__(self, pid, tier, seed, level="model_checking"):
+    def __init__(self, pid, tier, seed, level="model_checking", clean=True):
         self.pid, self.tier, self.seed, self.level = pid, tier, seed, level
         self.t0 = time.time()
         self.cov = {"states": 0, "transitions": 0, "traces_validated_against_impl": 0, "samples": [],
@@ -449,10 +449,11 @@ class Check:
         self.violations = []     # (key, what, replay_obj)
         self.known_hits = []
         self.infra = []
+        self.drift = []          # spec drift notes: exit 2 unless a real violation was found as well
         self.kf = load_known_findings(pid)
         self._distinct = set()
-        # replay files of earlier runs of this property are stale
-        if os.path.isdir(REPLAYS):
+        # replay files of earlier runs of this property are stale (kept when a replay file is being re-run)
+        if clean and os.path.isdir(REPLAYS):
             for f in os.listdir(REPLAYS):
                 if f.startswith(pid + "-"):
                     try:
